@@ -31,6 +31,11 @@ var prop = vlib.Prop[*vlib.HistCase]{
 		c := vlib.GenHistCase(t, vlib.HistGenOpts{Universe: universe(), MinSteps: 1, MaxSteps: 10, WithInit: true, AllowOrphan: true})
 		if rapid.IntRange(0, 5).Draw(t, "gnmi-device") == 2 {
 			c.GNMI = rapid.SampledFrom([]string{"proto", "json", "json_ietf"}).Draw(t, "gnmi-encoding")
+			c.Loop = rapid.Bool().Draw(t, "closed-loop")
+		}
+		if os.Getenv("VERIF_C01_LOOP") != "" {
+			c.GNMI = rapid.SampledFrom([]string{"proto", "json", "json_ietf"}).Draw(t, "gnmi-encoding-forced")
+			c.Loop = true
 		}
 		return c
 	},
@@ -55,8 +60,12 @@ func Exec(c *vlib.HistCase) (nontrivial bool, labels []string, fail *vlib.Failur
 				fmt.Fprintf(os.Stderr, "HARNESS-ERROR gnmi target: %v\n", err)
 				os.Exit(2)
 			}
-			tee = &vlib.GNMITee{Dev: dev, Real: real, GDev: gdev}
+			tee = &vlib.GNMITee{Dev: dev, Real: real, GDev: gdev, Loop: c.Loop}
+			gdev.NotifyOnSet = c.Loop
 			return tee
+		}
+		if c.Loop {
+			opts.DS.Sync = loopSyncConfig(c.GNMI)
 		}
 	}
 	h, err := vlib.NewHistEnv(ctx, env, c, opts)
@@ -74,6 +83,19 @@ func Exec(c *vlib.HistCase) (nontrivial bool, labels []string, fail *vlib.Failur
 	}
 	if len(c.Initial) > 0 {
 		lab["initial-running"] = true
+	}
+	var lp *loop
+	if tee != nil && c.Loop {
+		lab["closed-loop-real-sync"] = true
+		var f *vlib.Failure
+		lp, f = startLoop(h, tee, c.GNMI)
+		defer lp.stop()
+		if f == nil {
+			f = lp.checkStore(h, "initial sync")
+		}
+		if f != nil {
+			return nontrivial, keys(lab), f
+		}
 	}
 	for i, st := range c.Steps {
 		res := h.RunStep(st)
@@ -100,6 +122,16 @@ func Exec(c *vlib.HistCase) (nontrivial bool, labels []string, fail *vlib.Failur
 			if f := checkGNMI(tee, c.GNMI, fmt.Sprintf("step %d (%s)", i, describe(res)), lab); f != nil {
 				return nontrivial, keys(lab), f
 			}
+		}
+		if lp != nil {
+			if f := lp.checkStore(h, fmt.Sprintf("step %d (%s)", i, describe(res))); f != nil {
+				return nontrivial, keys(lab), f
+			}
+		}
+	}
+	if lp != nil && !lab["step-refused"] {
+		if f := lp.reapply(h, "end of history"); f != nil {
+			return nontrivial, keys(lab), f
 		}
 	}
 	for _, p := range c.Palette {
